@@ -72,3 +72,33 @@ func debugClasses(repo string, specs []string) int {
 	}
 	return 0
 }
+
+// debugIgx dumps the inlined flow graph of pkg.Type.Method (development aid).
+func debugIgx(repo, rel, typ, method string) int {
+	p, err := loadProgram(repo, "")
+	if err != nil {
+		fmt.Println(err)
+		return 1
+	}
+	fn := p.Method(rel, typ, method)
+	if fn == nil {
+		fmt.Println("no such method")
+		return 1
+	}
+	g := p.igx(fn)
+	for _, f := range g.Fns {
+		fmt.Println("fn:", fnName(f))
+	}
+	ex := map[int]bool{}
+	for _, e := range g.Exits {
+		ex[e] = true
+	}
+	for i, in := range g.Nodes {
+		mark := ""
+		if ex[i] {
+			mark = " EXIT"
+		}
+		fmt.Printf("%3d %-28s %v -> %v%s   [%s]\n", i, fnName(in.Parent()), in, g.Succ[i], mark, p.pos(in.Pos()))
+	}
+	return 0
+}
